@@ -141,9 +141,12 @@ func runScript(id int, r *rand.Rand, nSteps int) {
 		e.addr = e.srv.Addr
 		_, p := netlab.HostPort(e.addr)
 		fmt.Sscan(p, &e.port)
-		e.key = fmt.Sprintf("tcp -h %s -p %d -t 3000", e.host, e.port)
+		// the timeout a registry states is part of an endpoint's description (and key): 0 — "none
+		// stated" — is as legitimate as any other value
+		tmo := []int32{3000, 0, 60000, 3000, 0}[id%5]
+		e.key = fmt.Sprintf("tcp -h %s -p %d -t %d", e.host, e.port, tmo)
 		eps[i] = e
-		reg.active = append(reg.active, registry.Endpoint{Host: e.host, Port: int32(e.port), Timeout: 3000, Istcp: 1})
+		reg.active = append(reg.active, registry.Endpoint{Host: e.host, Port: int32(e.port), Timeout: tmo, Istcp: 1})
 	}
 	defer func() {
 		for _, e := range eps {
@@ -585,7 +588,7 @@ func main() {
 	}
 	run = vlib.Start("C15")
 	rogger.SetLevel(rogger.OFF)
-	run.SetRule("seeded scripts of 20..80 steps over 2..4 registry endpoints (distinct loopback hosts): batches of real calls (60 ms timeout), behaviour changes per endpoint {answer, silent, refuse}, virtual time advances {1,2,9,10,12,34,35,40,70 s}, status checks; a healing tail (35 s x 4 rounds). Trace assertions: P1 no removal without failures, P2 no removal with <2 failures, P3 >=5 consecutive failures over >=8 s (margin) => removed at the next check while another endpoint is active, P4 a blocked endpoint sees at most one probe per 27 s (margin), P5 reinstated iff the probe succeeded, P6 calls are attempted somewhere when all are blocked. A case is one script; distinct by (script, endpoints, probes per endpoint, calls).")
+	run.SetRule("seeded scripts of 20..80 steps over 2..4 registry endpoints (distinct loopback hosts; stated timeouts 3000, 0 and 60000 ms): batches of real calls (60 ms timeout), behaviour changes per endpoint {answer, silent, refuse}, virtual time advances {1,2,9,10,12,34,35,40,70 s}, status checks; a healing tail (35 s x 4 rounds). Trace assertions: P1 no removal without failures, P2 no removal with <2 failures, P3 >=5 consecutive failures over >=8 s (margin) => removed at the next check while another endpoint is active, P4 a blocked endpoint sees at most one probe per 27 s (margin), P5 reinstated iff the probe succeeded, P6 calls are attempted somewhere when all are blocked. A case is one script; distinct by (script, endpoints, probes per endpoint, calls).")
 	run.Assume("virtual time = shifts of the adapters' health timestamps (every comparison in the health check has the form now - stamp >= K) plus the real seconds elapsed; margins of 3 s around the 5 s / 30 s thresholds absorb second granularity")
 	// the process-wide endpoint manager takes its ticker intervals from the first application:
 	// put the automatic status check and registry refresh out of the way
